@@ -423,3 +423,164 @@ def selftest():
     if ind.hex() != '30801605536d6974680101ff0000' or parse_all(ind).children[0].content != b'Smith':
         bad.append('indefinite form: ' + ind.hex())
     return bad
+
+
+# ---------------------------------------------------------------------------
+# type-directed annotation of an encoder's TLV tree and BER variant writer (C04)
+
+def annotate(env, mod, t, v, node, numeric=False, outer=None, set_additions_fixed_order=False):
+    """Mark string / bit-string / SET nodes of `node` (the TLV tree of a BER encoding
+    of value v of type t).  Returns False when the tree does not match the type
+    (then the case is skipped, it is C03's business)."""
+    ls, r = tagging.layers(env, mod, t, outer)
+    b = r.base
+    k = b.kind
+    if k == 'CHOICE':
+        cur = node
+        for cls, num in ls:
+            if (cur.cls, cur.num) != (cls, num) or not cur.children or len(cur.children) != 1:
+                return False
+            cur = cur.children[0]
+        auto = tagging.component_autotags(env, r.mod, b)
+        for c in all_comps(b):
+            if c.name == v[0]:
+                return annotate(env, r.mod, c.t, v[1], cur, numeric, auto.get(c.name), set_additions_fixed_order)
+        return False
+    cur = node
+    for cls, num in ls[:-1]:
+        if (cur.cls, cur.num) != (cls, num) or not cur.children or len(cur.children) != 1:
+            return False
+        cur = cur.children[0]
+    if (cur.cls, cur.num) != ls[-1]:
+        return False
+    if k in ('OCTET STRING',) or k in STRING_KINDS:
+        cur.info = 'octets'
+        return cur.children is None
+    if k == 'BIT STRING':
+        cur.info = 'bits'
+        return cur.children is None
+    if k in ('SEQUENCE', 'SET'):
+        if cur.children is None:
+            return False
+        if k == 'SET' and not (set_additions_fixed_order and tagging.flat_additions(b)):
+            cur.info = 'set'
+        auto = tagging.component_autotags(env, r.mod, b)
+        present = []
+        for c in all_comps(b):
+            if c.name in v:
+                present.append(c)
+        used = set()
+        for ch in cur.children:
+            found = None
+            for c in present:
+                if id(c) in used:
+                    continue
+                if (ch.cls, ch.num) in tagging.outer_tags(env, r.mod, c.t, auto.get(c.name)):
+                    found = c
+                    break
+            if found is None:
+                return False
+            used.add(id(found))
+            if not annotate(env, r.mod, found.t, v[found.name], ch, numeric, auto.get(found.name), set_additions_fixed_order):
+                return False
+        return True
+    if k in ('SEQUENCE OF', 'SET OF'):
+        if cur.children is None or len(cur.children) != len(v):
+            return False
+        if k == 'SET OF':
+            cur.info = 'setof'
+        for ch, e in zip(cur.children, v):
+            if not annotate(env, r.mod, b.elem, e, ch, numeric, None, set_additions_fixed_order):
+                return False
+        return True
+    return cur.children is None
+
+
+def segment(rnd, node, depth=0):
+    """Turn a primitive string node into a constructed one with 1-4 cut points."""
+    content = node.content
+    if node.info == 'bits':
+        unused = content[0] if content else 0
+        body = content[1:]
+        if len(body) < 2:
+            return False
+        cuts = sorted(set(rnd.randrange(1, len(body)) for _ in range(rnd.randint(1, 4))))
+        parts = []
+        prev = 0
+        for c in cuts + [len(body)]:
+            parts.append(body[prev:c])
+            prev = c
+        segs = []
+        for i, p in enumerate(parts):
+            s = Node()
+            s.cls, s.constructed, s.num = UNIVERSAL, False, 3
+            s.content = bytes([unused if i == len(parts) - 1 else 0]) + p
+            s.info = 'bits'
+            segs.append(s)
+    else:
+        if len(content) < 1:
+            parts = [b'']
+        else:
+            cuts = sorted(set(rnd.randrange(0, len(content) + 1) for _ in range(rnd.randint(1, 4))))
+            parts = []
+            prev = 0
+            for c in cuts + [len(content)]:
+                parts.append(content[prev:c])
+                prev = c
+        segs = []
+        for p in parts:
+            s = Node()
+            s.cls, s.constructed, s.num = UNIVERSAL, False, 4
+            s.content = p
+            s.info = 'octets'
+            segs.append(s)
+    node.content = None
+    node.children = segs
+    node.constructed = True
+    if depth < 2:
+        for s in segs:
+            if rnd.random() < 0.3:
+                segment(rnd, s, depth + 1)
+    return True
+
+
+def make_variant(rnd, root, p_indef=0.35, p_pad=0.35, p_seg=0.5, p_perm=0.7):
+    """-> (bytes, set of rewrite kinds used).  Works on a deep copy of the annotated tree."""
+    import copy
+    tree = copy.deepcopy(root)
+    used = set()
+    choice = {}
+
+    def walk(n, depth=0):
+        if n.children is None and n.info in ('octets', 'bits') and rnd.random() < p_seg:
+            if segment(rnd, n):
+                used.add('segmented')
+                used.add('seg_depth_{}'.format(seg_depth(n)))
+        if n.children is not None:
+            if n.info == 'set' and len(n.children) > 1 and rnd.random() < p_perm:
+                before = [id(c) for c in n.children]
+                rnd.shuffle(n.children)
+                if [id(c) for c in n.children] != before:
+                    used.add('permuted')
+            for c in n.children:
+                walk(c, depth + 1)
+            x = rnd.random()
+            if x < p_indef:
+                choice[id(n)] = {'indef': True}
+                used.add('indefinite')
+            elif x < p_indef + p_pad:
+                choice[id(n)] = {'pad': rnd.randint(1, 4)}
+                used.add('padded')
+        else:
+            if rnd.random() < p_pad:
+                choice[id(n)] = {'pad': rnd.randint(1, 4)}
+                used.add('padded')
+    walk(tree)
+    data = serialize(tree, lambda n: choice.get(id(n), {}))
+    return data, used
+
+
+def seg_depth(n):
+    if n.children is None:
+        return 0
+    return 1 + max([seg_depth(c) for c in n.children] + [0])
